@@ -10,6 +10,7 @@ RULE = ("every family of the harness under ASan+UBSan with a per-case time limit
         "in random segmentation and interleaved with acknowledgements, peer FIN/reset, event-loop turns and application calls; "
         "upstream response streams mutated the same way; non-trivial = distinct case")
 ASSUMPTIONS = ["acknowledgement sizes are non-negative (a transport never reports a negative count)"]
+CASE_TIMEOUT = 60
 TRUSTED = ["memory errors and undefined behaviour are what ASan/UBSan (g++ 12) report on the executed cases", "a hang is a case exceeding the harness alarm"]
 
 OTHERS = ["c01", "c02", "c03", "c04", "c05", "c06", "c07", "c08", "c09", "c10", "c12", "c13", "c14", "c15", "c16", "c17", "c18", "c19", "c20"]
@@ -47,6 +48,7 @@ def cases(tier, seed, ctx=None):
         for sd in seeds:
             cs = list(mod.cases("quick", sd, ctx))
             step = max(1, len(cs) // per)
+            cs = [x for x in cs if x[2] != "long-lived"]      # the one case that pauses for many seconds stays with C20
             for fam, val, tag in cs[rng.below(step)::step][:per]:
                 yield (fam, val, "from-" + m)
     # parser entry points on mutated and random bytes
